@@ -1,5 +1,4 @@
-"""xtuml/meta.py -> lean/Gen/RelateShape.lean  (C02)
-
+"""xtuml/meta.py -> lean/Gen/RelateShape.lean:
 Reads, with `ast` only, the statement structure of the functions one level above Link.connect/disconnect
 and emits it as a small first-order IR:
 
